@@ -91,6 +91,14 @@ impl CidStore<RawValue> {
     pub fn verify_raw_value(&self) -> Result<(), CidStoreVerificationError> {
         for (cid, value) in &self.0 {
             verify_raw_value(cid, value.as_inner())?;
+            // the content id covers the raw text only; the text is parsed (without a fallback) when the
+            // value is used, so it has to be JSON
+            value
+                .check_json()
+                .map_err(|error| CidStoreVerificationError::MalformedValue {
+                    cid_repr: cid.get_inner(),
+                    error: error.to_string(),
+                })?;
         }
         Ok(())
     }
@@ -100,6 +108,9 @@ impl CidStore<RawValue> {
 pub enum CidStoreVerificationError {
     #[error(transparent)]
     CidVerificationError(#[from] CidVerificationError),
+
+    #[error("value for CID {cid_repr:?} is not valid JSON: {error}")]
+    MalformedValue { cid_repr: Rc<CidRef>, error: String },
 
     #[error("Reference CID {target_cid_repr:?} from type {source_type_name:?} to {target_type_name:?} was not found")]
     MissingReference {
